@@ -66,6 +66,14 @@ impl DiffFlagDefs {
             _ => return Err(invalid_definition()),
         };
 
+        // A name may only stand for one flag, or else labels would not mean what they print as.
+        if let Some((&other_index, _)) = self.by_flag.iter().find(|&(&i, &c)| c == name && i != index.value as FlagIndex) {
+            return Err(error!(
+                message("difficulty flag name {:?} is already the name of flag {}", name, other_index),
+                primary(str, ""),
+            ));
+        }
+
         self.define_flag(name, index.value as _, enable);
         Ok(())
     }
